@@ -4,7 +4,7 @@
        slots = comma list of  digest:clen:ulen:srv:cur                   (hex, - = empty)
      H <lead> <hlen>      header fetch arithmetic
    Output:
-     st=<D<code>|FUEL|OOB> ev=<S|R>:<i.j.k>:<count>;... flags=<V|F|M per chunk> eq=<0|1> hdr=<0|1> extra=<n>
+     st=<D<code>|FUEL|OOB|EMPTY> ev=<S|R>:<i.j.k>:<count>;... flags=<V|F|M per chunk> eq=<0|1> hdr=<0|1> extra=<n>
        | SPEC needed=<i.j.k> scan=<flags after the validity scan> all=<0|1> *)
 let hx s = if s = "-" then [] else bytes_of_hex s
 let hash_of t = fun (d : n list) -> bytes_of_string (Stubs.hash t (string_of_bytes d))
@@ -26,7 +26,7 @@ let () = iter_lines (fun line ->
                 | _ -> failwith "slot") (String.split_on_char ',' slots) in
       let t = { t_hdr = []; t_slots = sl; t_extra = hx extra } in
       let o = update hc hf a b (n_of_string srv) t in
-      let st = match o.o_status with Done e -> "D" ^ n_to_string e | OutOfFuel -> "FUEL" | TableOOB -> "OOB" in
+      let st = match o.o_status with Done e -> "D" ^ n_to_string e | OutOfFuel -> "FUEL" | TableOOB -> "OOB" | EmptyRange -> "EMPTY" in
       let ev = if o.o_events = [] then "-" else String.concat ";" (List.map (function
                 | Served (r, c) -> "S:" ^ idxs r ^ ":" ^ n_to_string c
                 | Refused (r, c) -> "R:" ^ idxs r ^ ":" ^ n_to_string c) o.o_events) in
